@@ -243,6 +243,12 @@ func Eq(a, b *Term) *Term {
 	if a.CL && b.IsConst() {
 		return mapLeaves(a, func(l *Term) *Term { return Eq(l, b) })
 	}
+	if b.IsConst() && a.W > 0 && b.C&^maybeOnes(a, 0) != 0 {
+		return tFalse
+	}
+	if a.IsConst() && b.W > 0 && a.C&^maybeOnes(b, 0) != 0 {
+		return tFalse
+	}
 	if b.CL && a.IsConst() {
 		return mapLeaves(b, func(l *Term) *Term { return Eq(a, l) })
 	}
@@ -373,6 +379,25 @@ func BinBV(op Op, a, b *Term) *Term {
 	case OpBAnd:
 		if a.IsConst() && a.C == 0 || b.IsConst() && b.C == 0 {
 			return BV(w, 0)
+		}
+		if a.IsConst() && !b.IsConst() {
+			a, b = b, a
+		}
+		if b.IsConst() {
+			if maybeOnes(a, 0)&b.C == 0 {
+				return BV(w, 0)
+			}
+			// (k | y) & c  =  (k & c) | (y & c)
+			if a.Op == OpBOr && (a.Args[0].IsConst() || a.Args[1].IsConst()) {
+				return BinBV(OpBOr, BinBV(OpBAnd, a.Args[0], b), BinBV(OpBAnd, a.Args[1], b))
+			}
+			// (y & c1) & c2 = y & (c1 & c2)
+			if a.Op == OpBAnd && a.Args[1].IsConst() {
+				return BinBV(OpBAnd, a.Args[0], BV(w, a.Args[1].C&b.C))
+			}
+			if maybeOnes(a, 0)&^b.C == 0 {
+				return a
+			}
 		}
 		if a.IsConst() && a.C == mask(w) {
 			return b
@@ -666,4 +691,35 @@ func (t *Term) write(sb *strings.Builder, depth int) {
 		}
 		sb.WriteString(")")
 	}
+}
+
+// maybeOnes over-approximates the set of bits of a bit-vector term that can be 1.
+func maybeOnes(t *Term, depth int) uint64 {
+	m := mask(t.W)
+	if depth > 8 {
+		return m
+	}
+	switch t.Op {
+	case OpConst:
+		return t.C
+	case OpBAnd:
+		return maybeOnes(t.Args[0], depth+1) & maybeOnes(t.Args[1], depth+1)
+	case OpBOr, OpBXor:
+		return maybeOnes(t.Args[0], depth+1) | maybeOnes(t.Args[1], depth+1)
+	case OpZExt:
+		return maybeOnes(t.Args[0], depth+1)
+	case OpIte:
+		return maybeOnes(t.Args[1], depth+1) | maybeOnes(t.Args[2], depth+1)
+	case OpShl:
+		if t.Args[1].IsConst() && t.Args[1].C < 64 {
+			return (maybeOnes(t.Args[0], depth+1) << t.Args[1].C) & m
+		}
+	case OpLShr:
+		if t.Args[1].IsConst() && t.Args[1].C < 64 {
+			return maybeOnes(t.Args[0], depth+1) >> t.Args[1].C
+		}
+	case OpExtract:
+		return (maybeOnes(t.Args[0], depth+1) >> uint(t.Lo)) & m
+	}
+	return m
 }
